@@ -454,6 +454,21 @@ func runC05(r *vf.Runner) {
 			}
 		}
 	}
+	// two views of one slice redistributed side by side
+	for i, ks := range [][]string{{"int", "string"}, {"string", "int"}, {"int64", "int"}} {
+		for _, n := range []int{2, 3, 4, 7} {
+			if r.Quick() && (i+n)%2 == 1 {
+				continue
+			}
+			for _, conf := range []sessConf{localP4, bm2} {
+				if conf.Kind != "local" && n != 3 {
+					continue
+				}
+				c := c05views{Conf: conf, Kinds: ks, N: n, Seed: uint64(n + i)}
+				r.Case(c, func(t *vf.T) { runC05views(t, pool, c) })
+			}
+		}
+	}
 	// multi-column prefixes
 	for i, ks := range [][]string{{"int", "string"}, {"uint8", "bytes", "bool"}, {"string", "float64"}, {"int16", "int64", "uint32"}} {
 		for _, n := range []int{2, 3, 7, 16} {
@@ -508,4 +523,127 @@ func runC05(r *vf.Runner) {
 			})
 		}
 	}
+}
+
+// ---- two views of one slice: the same slice is redistributed twice in one invocation, once by
+// its first column and once (through Prefixed) by its first two columns, with the same shard
+// count; the two results are joined by a Cogroup. Each redistribution must place rows by its own
+// key: a key of the narrow view in one shard, and the placement of either view the same in both
+// argument orders of the join and when the view is computed alone.
+
+type c05views struct {
+	Conf  sessConf `json:"conf"`
+	Kinds []string `json:"kinds"`
+	N     int      `json:"n"`
+	Seed  uint64   `json:"seed"`
+}
+
+// c05viewSpec: which is "both" (narrow view first in the join), "both-rev", "narrow" or "wide".
+func c05viewSpec(c c05views, which string) (Spec, map[int]int) {
+	base := c05case{Kinds: c.Kinds, Producers: c.N, NShard: c.N, KeySet: "random", NKeys: 150, Dup: 1, Seed: c.Seed}
+	kinds := append(append([]string{}, c.Kinds...), "int64")
+	nodes := []PNode{{Op: "keys", Shards: c.N, Out: kinds, Vals: c05vals(base)},
+		{Op: "map", In: []int{0}, Out: []string{kinds[1], kinds[0], "int64"}, Src: []int{1, 0, 2}, Salt: 1}}
+	writers := map[int]int{} // writer node -> key prefix of the view it observes
+	add := func(n PNode) int { nodes = append(nodes, n); return len(nodes) - 1 }
+	narrow := func() int {
+		a := add(PNode{Op: "reshuffle", In: []int{1}})
+		w := add(PNode{Op: "writerfunc", In: []int{a}})
+		writers[w] = 1
+		return w
+	}
+	wide := func() int {
+		p := add(PNode{Op: "prefixed", In: []int{1}, P: 2})
+		b := add(PNode{Op: "reshuffle", In: []int{p}})
+		w := add(PNode{Op: "writerfunc", In: []int{b}})
+		writers[w] = 2
+		return add(PNode{Op: "prefixed", In: []int{w}, P: 1})
+	}
+	switch which {
+	case "narrow":
+		narrow()
+	case "wide":
+		wide()
+	case "both":
+		a := narrow()
+		b := wide()
+		add(PNode{Op: "cogroup", In: []int{a, b}})
+	case "both-rev":
+		b := wide()
+		a := narrow()
+		add(PNode{Op: "cogroup", In: []int{b, a}})
+	}
+	return Spec{Nodes: nodes}, writers
+}
+
+func runC05views(t *vf.T, pool *sessionPool, c c05views) {
+	ls := pool.get(c.Conf)
+	sig := "two-views key=" + strings.Join(c.Kinds, "+")
+	placement := map[int]map[string]int{1: {}, 2: {}} // prefix -> key -> shard, over all runs of this case
+	where := map[int]map[string]string{1: {}, 2: {}}
+	for _, which := range []string{"both", "both-rev", "narrow", "wide"} {
+		sp, writers := c05viewSpec(c, which)
+		sp.Run = fmt.Sprintf("c05v-%d-%s", t.Index(), which)
+		want, rels, err := evalSpec(&sp, nil)
+		if err != nil {
+			t.Inconclusive("spec: " + err.Error())
+			return
+		}
+		out := runSpec(ls, sp, [2]bigslice.Slice{}, true, 300*time.Second)
+		pr := probeFor(sp.Run)
+		switch {
+		case out.TimedOut:
+			t.Inconclusive("watchdog")
+			pool.drop(c.Conf)
+			probes.Delete(sp.Run)
+			return
+		case out.Panic != nil || out.RunErr != nil || out.ScanErr != nil:
+			t.Violate(sig+" run-failed", fmt.Sprintf("%s: run: %v scan: %v panic: %v", which, out.RunErr, out.ScanErr, out.Panic))
+			probes.Delete(sp.Run)
+			return
+		}
+		if d := compareResult(out.Rows, want); d != "" {
+			t.Violate(sig+" rows", which+": "+d)
+			probes.Delete(sp.Run)
+			return
+		}
+		for wi, p := range writers {
+			nshard := rels[wi].nshard()
+			seen := 0
+			for s := 0; s < nshard; s++ {
+				pr.mu.Lock()
+				e := pr.entries[recKey{sp.Run, wi, s}]
+				var rows []row
+				if e != nil && len(e.Attempts) > 0 {
+					rows = append(rows, e.Attempts[len(e.Attempts)-1].Rows...)
+				}
+				pr.mu.Unlock()
+				for _, r := range rows {
+					seen++
+					k := keyEqStr(r, p)
+					if prev, ok := placement[p][k]; ok && prev != s {
+						what := "key-in-two-shards"
+						if where[p][k] != which {
+							what = "placement-depends-on-the-other-view"
+						}
+						t.Violate(fmt.Sprintf("%s view-prefix=%d %s", sig, p, what), fmt.Sprintf("the view keyed by its first %d column(s): key %s is in shard %d in program %q and in shard %d in program %q (%d shards)", p, k, prev, where[p][k], s, which, nshard))
+						probes.Delete(sp.Run)
+						return
+					}
+					placement[p][k] = s
+					where[p][k] = which
+				}
+			}
+			if seen != rels[1].count() {
+				t.Violate(sig+" recorder-count", fmt.Sprintf("%s: the writer of the view with prefix %d saw %d rows, the slice has %d", which, p, seen, rels[1].count()))
+				probes.Delete(sp.Run)
+				return
+			}
+			t.Count("rows_placed", int64(seen))
+		}
+		probes.Delete(sp.Run)
+		t.Count("runs", 1)
+	}
+	t.Count("two_view_cases", 1)
+	t.Nontrivial("")
 }
